@@ -50,23 +50,51 @@ def p_atom(s):
     raise ValueError(s)
 
 
+def p_plus(s):
+    return [p_atom(x) for x in s.split("+")] if s else []
+
+
+def p_elem(s):
+    """what a queue holds: an atom, U<atom>+<atom>.. a tuple (U alone is ()), V<atom>+.. a list"""
+    if s[0] == "U":
+        return tuple(p_plus(s[1:]))
+    if s[0] == "V":
+        return p_plus(s[1:])
+    return p_atom(s)
+
+
+def p_map(s, cls, pv):
+    d = cls()
+    if s:
+        for kv in s.split(","):
+            k, v = kv.split("=")
+            d[k] = pv(v)
+    return d
+
+
 def p_val(s):
+    """a field value: atom, U.. tuple, L<elem>,<elem>.. list, D<k>=<atom>,.. dict, Q<k>=<atom>,.. ioflo odict"""
     if s[0] == "L":
-        return [p_atom(x) for x in s[1:].split(",")] if len(s) > 1 else []
+        return [p_elem(x) for x in s[1:].split(",")] if len(s) > 1 else []
+    if s[0] == "U":
+        return tuple(p_plus(s[1:]))
+    if s[0] == "D":
+        return p_map(s[1:], dict, p_atom)
+    if s[0] == "Q":
+        from ioflo.aid.odicting import odict
+        return p_map(s[1:], odict, p_atom)
     return p_atom(s)
 
 
 def p_entry(s):
+    """a deck entry: M<f>=<elem>,.. a mapping; O<elem> / OL<atom>,.. something that is not a mapping"""
     if s[0] == "M":
         from ioflo.aid.odicting import odict
-        d = odict()
-        if len(s) > 1:
-            for kv in s[1:].split(","):
-                k, v = kv.split("=")
-                d[k] = p_atom(v)
-        return d
+        return p_map(s[1:], odict, p_elem)
     if s[0] == "O":
-        return p_val(s[1:])
+        if s[1:2] == "L":
+            return [p_atom(x) for x in s[2:].split(",")] if len(s) > 2 else []
+        return p_elem(s[1:])
     raise ValueError(s)
 
 
@@ -119,7 +147,7 @@ class Spec:
 
     @staticmethod
     def cell_text(c):
-        return "" if c[0] == "missing" else "%s" % (c[1],)
+        return "" if c[0] == "missing" else str(c[1])      # one cell shows one value, whatever its type
 
     def rec_text(self, cells):
         return self.stamp_text(self.stamp) + "".join("\t" + self.cell_text(c) for c in cells)
@@ -178,10 +206,15 @@ class Spec:
                     fs = log["fields"][tag]
                     f = fs[0] if fs else (list(data.keys())[0] if data else None)
                     if data and f is not None and f in data:
+                        # every queued element is logged exactly once, as the text of that ONE element
                         if isinstance(data[f], list):
                             for el in data[f]:
-                                log["recs"].append(self.stamp_text(self.stamp) + "\t%s" % (el,))
+                                log["recs"].append(self.stamp_text(self.stamp) + "\t" + str(el))
                             data[f] = []
+                        elif isinstance(data[f], dict):      # a mapping queue holds (key, value) items
+                            for k, v in data[f].items():
+                                log["recs"].append(self.stamp_text(self.stamp) + "\t" + str((k, v)))
+                            data[f] = type(data[f])()
                         else:
                             log["judge"] = False     # not a queue: the property is silent
             elif rule == "deck":
@@ -191,7 +224,7 @@ class Spec:
                     for e in sh["deck"]:
                         if isinstance(e, dict):
                             log["recs"].append(self.stamp_text(self.stamp) + "".join(
-                                "\t" + ("%s" % (e[f],) if f in e else "") for f in log["fields"][tag]))
+                                "\t" + (str(e[f]) if f in e else "") for f in log["fields"][tag]))
                     sh["deck"] = []
             log["ran"] = True
 
@@ -224,18 +257,19 @@ class Spec:
         elif k == "append":
             d = self.share(int(w[1]))["data"]
             if isinstance(d.get(w[2]), list):
-                d[w[2]] = d[w[2]] + [p_atom(w[3])]
+                d[w[2]] = d[w[2]] + [p_elem(w[3])]
+        elif k == "setitem":
+            d = self.share(int(w[1]))["data"]
+            if isinstance(d.get(w[2]), dict):
+                nd = type(d[w[2]])(d[w[2]])      # a new object: records already promised keep the old value
+                nd[w[3]] = p_atom(w[4])
+                d[w[2]] = nd
         elif k == "push":
             e = w[2]
             if e[0] == "M":
-                m = {}
-                if len(e) > 1:
-                    for kv in e[1:].split(","):
-                        a, b = kv.split("=")
-                        m[a] = p_atom(b)
-                self.share(int(w[1]))["deck"].append(m)
+                self.share(int(w[1]))["deck"].append(p_map(e[1:], dict, p_elem))
             else:
-                self.share(int(w[1]))["deck"].append(p_val(e[1:]))
+                self.share(int(w[1]))["deck"].append(p_entry(e))
         elif k == "ctl":
             c = w[1]
             if c == "start":
@@ -290,6 +324,11 @@ def proto_ok(ops):
 
 # --------------------------------------------------------------------------- the check
 
+def rng_free_fields(q0):
+    """the odict queue is named in the field list, the dict queue is found as the share's first field"""
+    return ["q"] if q0.startswith("Q") else []
+
+
 class CHECK(core.Check):
     PROPERTY = "C22"
     LEAN_MODULES = ["IofloModel.Props.C22"]
@@ -299,33 +338,43 @@ class CHECK(core.Check):
     N_SEARCH = 1500
     RULE = ("histories: 1-3 shares + a queue share, 1-4 logs (every rule; field selections: default-all / subset / "
             "absent field; one to three loggees), ticks with writes placed before and after the logger run of the tick, "
-            "same-value and unstamped writes, in-place list appends, logger periods 1-3 ticks, restarts with writes while "
+            "START re-sent to a running logger, same-value and unstamped writes, in-place list appends and mapping item assignments, values = int/bool/None/str, "
+            "tuples of length 0-3, lists of atoms/tuples/lists, dict and odict; streak queues that are lists of such "
+            "elements or mapping-valued (dict/odict), deck entries with tuple/list-valued fields and non-mapping entries "
+            "(None, falsy, tuples, lists), logger periods 1-3 ticks, restarts with writes while "
             "stopped, optional None store stamp, pre-existing files; every 6th case from a malformed stream (controls "
             "out of order, deck without fields, no loggees); plus all single-log histories of length <= 3 (quick) / <= 5 "
             "(thorough) over {write 0, write 1, advance, run} for once/always/update/change and of length <= 2 / <= 4 "
-            "over {append x2, push mapping, push non-mapping, advance, run} for streak+deck; non-trivial = some log "
+            "over {append x2, push mapping, push non-mapping, advance, run} for streak+deck, of length <= 2 / <= 4 over "
+            "{append of a 0/1/2/3-tuple and of a nested list, push of a tuple-valued mapping, advance, run} and over "
+            "{three item assignments, advance, run} on an odict and a dict queue, of length <= 2 / <= 3 over {write of a "
+            "0/1/2-tuple and an int, advance, run} for always/update/change; non-trivial = some log "
             "wrote a record; distinct by case content")
     TRUSTED = ["correspondence: real ioflo House/Store/Share/Logger/Log objects writing under /verif/.scratch/log/<pid> vs "
                "the Lean driver 'logrules' on the same history; per-control outcome (ok / exception name) and the final "
                "contents of every log file compared line by line (os.fsync is stubbed: durability is C23)",
                "the tree is /repo with the fixes D51, D52 (change rule) and D53 (reopen: an empty existing file is new) "
-               "applied; the model describes the repaired code",
+               "applied, and D54 (a tuple-valued field is formatted as one value); the model describes the repaired code",
                "environment assumptions of the history theorems: controls follow the runner protocol (RUN only to a "
                "started/running logger), the store stamp is numeric and never decreases, shares are not stamped in "
                "the future, loggee tags are distinct",
-               "CPython: '%s' formatting of int/str/bool/None/list and of dyadic floats; text-file append semantics"]
+               "CPython: str() of int/str/bool/None/tuple/list/dict, repr of ioflo's odict, and of dyadic floats; text-file "
+               "append semantics"]
     PARTIAL = ["C22_update_partial: the update rule equals the ideal dirty-flag logger only for histories without a "
                "stamped write to a loggee after the log already logged at the same store stamp (region "
                "Ioflo.LogRules.lateWrite, known finding D12); C22_update_counterexample proves the full statement false",
                "C22_streak_fifo_once: for a streak log whose field list names the queue field and histories that only "
-               "append to it (no write/poke of that field); default-field streaks, non-list values (logged on every run) "
-               "and MutableMapping queues are covered by the correspondence only / not modelled",
+               "append to it (no write/poke of that field), elements being atoms, tuples or lists; C22_streak_mapping_once: "
+               "one run on a mapping-valued queue logs every (key, value) item once in insertion order and empties it "
+               "(a per-run statement; histories of item assignments are covered by the correspondence); default-field "
+               "streaks and non-queue values (logged on every run) are covered by the correspondence only",
                "the rule theorems are about a logger with ONE log (S1); C22_logs_independent carries them to loggers "
                "with any number of logs whose rules do not drain a queue (never/once/always/update/change); loggers "
                "that mix in streak/deck logs are tied to the code by the correspondence only; a change log that watches a list "
                "which a streak log of the same logger drains between prepare and the first record writes a duplicate "
                "first record (not generated, not covered)",
-               "not modelled: field deletion from a share, binary logs, IOError on open, tuple values, rotation (C23)"]
+               "not modelled: field deletion from a share, binary logs, IOError on open, floats, containers nested deeper "
+               "than two levels or with non-string mapping keys, deques, rotation (C23)"]
     TECHNIQUE = ("Lean 4 theorems by induction over histories with invariants: refinement of an idealised logger "
                  "(dirty flag / last logged values) for update and change, conservation laws for streak and deck, "
                  "counting for once/always, a file-shape invariant for the header; + differential correspondence "
@@ -333,16 +382,18 @@ class CHECK(core.Check):
     LEVEL_TEXT = ("Proof on the model (one log per logger, all histories that follow the runner protocol): never writes "
                   "nothing (unconditional); once exactly one record; always one per run showing the current values; "
                   "change: file equal to that of the ideal logger that compares with the last logged values, restarts "
-                  "included (FULL, for the code with fix patches D51+D52); update: equal to the ideal dirty-flag logger "
+                  "included (FULL, for the code with fix patches D51+D52+D54); update: equal to the ideal dirty-flag logger "
                   "outside the D12 region (C22_update_partial) and a kernel-checked counterexample inside it "
                   "(C22_update_counterexample, known finding D12); deck: logged ++ pending = initial ++ pushed mappings "
                   "for every history, deck empty after a run; streak: the same for append-only histories on a named "
-                  "queue field; exactly one header at the start of a new file, none added to an existing one. The "
+                  "queue field (elements: atoms, tuples, lists - each logged once as ONE value), and every item of a "
+                  "mapping-valued queue logged once per run; exactly one header at the start of a new file, none added to an existing one. The "
                   "model is tied to logging.py by running real Logger/Log objects and the Lean driver on the same "
                   "histories (multi-log loggers, malformed control sequences and exception outcomes included).")
     LEVEL_NOTE = ("Trusted: Lean kernel; axioms propext, Classical.choice, Quot.sound; the hand transcription of "
                   "logging.py (Log rules, prepare, reopen, runner) validated only by the correspondence runs; the "
-                  "values are ints/bools/None/short strings/lists of those, stamps multiples of 1/8 s; os.fsync stubbed; "
+                  "values are ints/bools/None/short strings, tuples and lists of those, lists of tuples/lists, string-keyed "
+                  "dict/odict; stamps multiples of 1/8 s; os.fsync stubbed; "
                   "theorems assume protocol-respecting controls, a numeric non-decreasing store stamp and distinct "
                   "loggee tags. update is PARTIAL (D12).")
 
@@ -427,7 +478,12 @@ class CHECK(core.Check):
             elif k == "append":
                 sh = share(int(w[1]))
                 if isinstance(sh.get(w[2]), list):
-                    sh[w[2]].append(p_atom(w[3]))
+                    sh[w[2]].append(p_elem(w[3]))
+                out.append("ok")
+            elif k == "setitem":
+                sh = share(int(w[1]))
+                if isinstance(sh.get(w[2]), dict):
+                    sh[w[2]][w[3]] = p_atom(w[4])
                 out.append("ok")
             elif k == "push":
                 share(int(w[1])).push(p_entry(w[2]))
@@ -461,8 +517,6 @@ class CHECK(core.Check):
         nops = len(case["ops"])
         if len(out) != nops + len(case["logs"]) or any(o.startswith("HARNESS-EXC") for o in out):
             return [("harness", "adapter failed: %s" % out[:3])]
-        if any(o != "ok" for o in out[:nops]):
-            return []        # a control raised: the property speaks about histories the runner survives
         if not proto_ok(case["ops"]):
             return []        # RUN/STOP sent to a logger that is not started: outside the runner protocol
         spec = Spec(case)
@@ -470,6 +524,12 @@ class CHECK(core.Check):
             spec.op(line)
         if not spec.numeric or not clock_ok(case["ops"]):
             return []        # None or decreasing store stamp: outside the environment the property assumes
+        if any(o == "ERR TypeError" for o in out[:nops]):
+            # no value of any type may kill the logger: what it had taken off its queues is then never logged
+            return [("format", "a logger run raised TypeError while writing a record (op %d)" %
+                     [o for o in out[:nops]].index("ERR TypeError"))]
+        if any(o != "ok" for o in out[:nops]):
+            return []        # a control raised: the property speaks about histories the runner survives
         fails = []
         for i, log in enumerate(spec.logs):
             cfg = log["cfg"]
@@ -563,20 +623,49 @@ class CHECK(core.Check):
             return rng.choice(["T", "F"])
         if r < 0.72:
             return "N"
-        if r < 0.85 or not lists:
+        if r < 0.80 or not lists:
             return "s" + rng.choice(["x", "y", "ab"])
-        return "L" + ",".join(self.gen_atom(rng) for _ in range(rng.randrange(3)))
+        if r < 0.88:
+            return "L" + ",".join(self.gen_elem(rng) for _ in range(rng.randrange(3)))
+        if r < 0.95:
+            return self.gen_tuple(rng)
+        return self.gen_mapping(rng)
 
     def gen_atom(self, rng):
         return rng.choice(["i0", "i1", "i2", "T", "F", "N", "sx", "sy", "s"])
+
+    def gen_tuple(self, rng):
+        """tuples of length 0 / 1 / 2 / 3"""
+        return "U" + "+".join(self.gen_atom(rng) for _ in range(rng.choice([0, 1, 1, 2, 2, 3])))
+
+    def gen_elem(self, rng):
+        """a queue element: an atom, a tuple, a nested list"""
+        r = rng.random()
+        if r < 0.45:
+            return self.gen_atom(rng)
+        if r < 0.85:
+            return self.gen_tuple(rng)
+        return "V" + "+".join(self.gen_atom(rng) for _ in range(rng.randrange(3)))
+
+    def gen_mapping(self, rng):
+        """a dict / odict value (a mapping-valued queue when it sits in the streak field)"""
+        ks = rng.sample(["k", "m", "b", "a"], rng.randrange(4))
+        return rng.choice("DQ") + ",".join("%s=%s" % (k, self.gen_atom(rng)) for k in ks)
+
+    def gen_queue(self, rng):
+        """initial / replacement content of the queue field: a list of elements or a mapping"""
+        if rng.random() < 0.3:
+            return self.gen_mapping(rng)
+        return "L" + ",".join(self.gen_elem(rng) for _ in range(rng.randrange(4)))
 
     def gen_entry(self, rng):
         """a deck entry: mostly mappings (also the empty one), else None / falsy and other non-mappings"""
         r = rng.random()
         if r < 0.6:
-            return "M" + ",".join("%s=%s" % (k, self.gen_atom(rng))
+            return "M" + ",".join("%s=%s" % (k, self.gen_elem(rng) if rng.random() < 0.3 else self.gen_atom(rng))
                                   for k in rng.sample(["p", "q", "r", "s"], rng.randrange(4)))
-        return "O" + rng.choice(["N", "N", "N", "i0", "s", "L", "F", "i7", "sx", "Li1", "T"])
+        return "O" + rng.choice(["N", "N", "N", "i0", "s", "L", "F", "i7", "sx", "Li1", "T", "U", "Ui1", "Usx+N",
+                                 "V", "Vi1"])
 
     def gen_case(self, rng, malformed=False):
         nsh = rng.choice([1, 1, 2, 2, 3])
@@ -627,8 +716,8 @@ class CHECK(core.Check):
         for sid in range(nsh):
             for f in rng.sample(self.FIELDS, rng.choice([0, 1, 1, 2, 3])):
                 ops.append("%s %d %s %s" % (rng.choice(["poke", "write"]), sid, f, self.gen_val(rng)))
-        if rng.random() < 0.8:
-            ops.append("poke %d q L%s" % (QS, ",".join(self.gen_atom(rng) for _ in range(rng.randrange(3)))))
+        if rng.random() < 0.85:
+            ops.append("poke %d q %s" % (QS, self.gen_queue(rng)))
         period = rng.choice([1, 1, 1, 2, 3])
         ticks = rng.choice([1, 2, 3, 4, 5, 6, 8])
         started = False
@@ -642,12 +731,19 @@ class CHECK(core.Check):
                 elif r < 0.72:
                     ops.append("poke %d %s %s" % (sid, rng.choice(self.FIELDS), self.gen_val(rng)))
                 elif r < 0.80:
-                    ops.append("append %d q %s" % (QS, self.gen_atom(rng)))
+                    # queue one more element: onto a list queue, or as a new / replaced item of a mapping queue
+                    # (each is a no-op on the other kind of queue, so both are sent)
+                    for _ in range(rng.choice([1, 1, 2])):
+                        ops.append("append %d q %s" % (QS, self.gen_elem(rng)))
+                        ops.append("setitem %d q %s %s" % (QS, rng.choice(["k", "m", "n", "a"]), self.gen_atom(rng)))
                 elif r < 0.84:
-                    ops.append("append %d %s %s" % (sid, rng.choice(self.FIELDS), self.gen_atom(rng)))
+                    f = rng.choice(self.FIELDS)
+                    ops.append("append %d %s %s" % (sid, f, self.gen_elem(rng)))
+                    ops.append("setitem %d %s %s %s" % (sid, f, rng.choice(["k", "m"]), self.gen_atom(rng)))
                 elif r < 0.88:
                     ops.append("%s %d q %s" % (rng.choice(["poke", "write"]), QS,
-                                              rng.choice(["L", "Li1,i2", "i5", "sx"])))
+                                              rng.choice(["L", "Li1,i2", "i5", "sx", "Ui1+i2", "U", "D", "Qk=i1",
+                                                          self.gen_queue(rng)])))
                 else:
                     for _ in range(rng.choice([1, 1, 2, 3, 4])):
                         ops.append("push %d %s" % (QS, self.gen_entry(rng)))
@@ -660,7 +756,8 @@ class CHECK(core.Check):
                 ops.append("ctl start")
                 started = True
             elif t % period == 0:
-                ops.append("ctl run")
+                # now and then START is sent again to the running logger (another tasker asks for a start)
+                ops.append("ctl start" if rng.random() < 0.07 else "ctl run")
             writes(rng.choice([0, 0, 0, 1, 1, 2]))
             r = rng.random()
             if r < 0.08 and started:
@@ -701,6 +798,28 @@ class CHECK(core.Check):
                 yield {"kind": "exh", "logs": [{"rule": "streak", "base": "s", "old": None, "loggees": [["x", 3, ["q"]]]},
                                                {"rule": "deck", "base": "d", "old": None, "loggees": [["x", 3, ["p"]]]}],
                        "ops": ["stamp 0", "poke 3 q L", "ctl start"] + list(seq) + ["ctl stop"]}
+        # queues of tuples (length 0-3) and nested lists; mapping-valued queues (dict and odict); a tuple-valued
+        # field under the value rules
+        ta = ["append 3 q U", "append 3 q Ui1", "append 3 q Ui1+sx", "append 3 q Ui1+N+T", "append 3 q Vi1+i2",
+              "push 3 Mp=Ui1+i2", "adv 1", "ctl run"]
+        ma = ["setitem 3 q b i2", "setitem 3 q a N", "setitem 3 q c sx", "adv 1", "ctl run"]
+        Lq = 4 if tier == "thorough" else 2
+        for n in range(Lq + 1):
+            for seq in itertools.product(ta, repeat=n):
+                yield {"kind": "exh", "logs": [{"rule": "streak", "base": "s", "old": None, "loggees": [["x", 3, ["q"]]]},
+                                               {"rule": "deck", "base": "d", "old": None, "loggees": [["x", 3, ["p"]]]}],
+                       "ops": ["stamp 0", "poke 3 q LUi0+i0", "ctl start"] + list(seq) + ["ctl stop"]}
+            for q0 in ("Qa=i1", "D"):
+                for seq in itertools.product(ma, repeat=n):
+                    yield {"kind": "exh", "logs": [{"rule": "streak", "base": "s", "old": None,
+                                                    "loggees": [["x", 3, rng_free_fields(q0)]]}],
+                           "ops": ["stamp 0", "poke 3 q " + q0, "ctl start"] + list(seq) + ["ctl stop"]}
+        va = ["write 0 value U", "write 0 value Ui1", "write 0 value Ui1+i2", "write 0 value i1", "adv 1", "ctl run"]
+        for rule in ("always", "update", "change"):
+            for n in range((3 if tier == "thorough" else 2) + 1):
+                for seq in itertools.product(va, repeat=n):
+                    yield {"kind": "exh", "logs": [{"rule": rule, "base": "e", "old": None, "loggees": [["x", 0, []]]}],
+                           "ops": ["stamp 0", "poke 0 value Ui1", "ctl start"] + list(seq) + ["ctl stop"]}
 
     def search(self, rng, n, tier):
         for i in range(n):
